@@ -20,6 +20,7 @@ import (
 	"time"
 
 	el "github.com/hashicorp/eventlogger"
+	"github.com/hashicorp/go-multierror"
 	"verifharness/hc"
 )
 
@@ -45,6 +46,32 @@ type Point struct {
 	Occ  int    `json:"occ"`
 }
 
+// callerCtx is a caller's context of a type of its own (nothing from the context package inside): contexts derived from it
+// with context.WithCancel need a goroutine of the context package to propagate its cancellation.
+type callerCtx struct {
+	mu   sync.Mutex
+	done chan struct{}
+	err  error
+}
+
+func newCallerCtx() *callerCtx { return &callerCtx{done: make(chan struct{})} }
+func (c *callerCtx) Deadline() (time.Time, bool)       { return time.Time{}, false }
+func (c *callerCtx) Done() <-chan struct{}             { return c.done }
+func (c *callerCtx) Value(key interface{}) interface{} { return nil }
+func (c *callerCtx) Err() error {
+	c.mu.Lock()
+	defer c.mu.Unlock()
+	return c.err
+}
+func (c *callerCtx) cancel() {
+	c.mu.Lock()
+	defer c.mu.Unlock()
+	if c.err == nil {
+		c.err = context.Canceled
+		close(c.done)
+	}
+}
+
 // Sched is the schedule script of one run.
 type Sched struct {
 	Pre      bool   `json:"pre,omitempty"`       // cancel before Send is called
@@ -54,10 +81,14 @@ type Sched struct {
 	// every started invocation has exited).
 	Mode   int    `json:"mode,omitempty"`
 	Jitter uint64 `json:"jitter,omitempty"` // seed of random yields at hook points (0: none)
+	// Ctx: the caller's context is 1 a context.WithCancel(context.Background()), 2 a context type of the caller's own
+	// (callerCtx); 0 = not fixed by the script: the driver alternates
+	Ctx int `json:"ctx,omitempty"`
 }
 
 // behaviour codes of a harness node per visit: 0 pass (return the event), 1 replace (return a fresh event),
-// 2 drop (nil, nil), 3 error (nil, err), 4 event and error, 5 error: a package-level sentinel value, 6 error: the node's stored value
+// 2 drop (nil, nil), 3 error (nil, err), 4 event and error, 5 error: a package-level sentinel value, 6 error: the node's stored value,
+// 70+k error: a bare *multierror.Error holding k errors (k = 0..3), 80+k error: such a multierror wrapped with %w
 type Case struct {
 	ID    int     `json:"id"`
 	Gen   string  `json:"gen"`
@@ -143,10 +174,13 @@ func (e *herr) Unwrap() error {
 
 var sharedErrs sync.Map // obj -> *herr
 
-var errSentinel error = &herr{id: 999998}
+var errSentinel error = regErr(&herr{id: 999998}, 999998)
 
 func (n *hnode) sharedErr() error {
-	v, _ := sharedErrs.LoadOrStore(n.obj, &herr{id: n.obj*1000 + 999})
+	v, loaded := sharedErrs.LoadOrStore(n.obj, &herr{id: n.obj*1000 + 999})
+	if !loaded {
+		regErr(v.(*herr), n.obj*1000+999)
+	}
 	return v.(*herr)
 }
 
@@ -194,17 +228,20 @@ func (n *hnode) Process(ctx context.Context, e *el.Event) (*el.Event, error) {
 			// pipelines are still one warning each
 			err = n.sharedErr()
 		} else {
-			err = &herr{id: n.obj*1000 + visit + 1}
+			err = regErr(&herr{id: n.obj*1000 + visit + 1}, n.obj*1000+visit+1)
 		}
 	case 4:
 		out = e
-		err = &herr{id: n.obj*1000 + visit + 1}
+		err = regErr(&herr{id: n.obj*1000 + visit + 1}, n.obj*1000+visit+1)
 	case 5:
 		// one package-level sentinel returned by whichever node fails this way (like io.ErrShortWrite)
 		err = errSentinel
 	case 6:
 		// this node's stored error: the identical value in every pipeline that runs through the node
 		err = n.sharedErr()
+	case 70, 71, 72, 73, 80, 81, 82, 83:
+		// an aggregate error (bare *multierror.Error with 0..3 components, or one wrapped with %w): still ONE error value
+		err = aggregate(n.obj, visit, code)
 	}
 	r.mu.Lock()
 	r.inProcess--
@@ -316,12 +353,50 @@ func (r *rec) internEv(e *el.Event) int {
 	return id
 }
 
-func errID(err error) int {
-	var h *herr
-	if errors.As(err, &h) {
-		return h.id
+// Error identities: every error value a harness node may return (and every component of an aggregate it returns) is
+// registered under a number; a warning is identified by the VALUE itself (interface equality), never by what it wraps,
+// so an aggregate error taken apart, or replaced by one of its components, shows up as different identities.
+var errReg sync.Map // error value -> id
+var errSeq struct {
+	sync.Mutex
+	n int
+}
+
+func regErr(e error, id int) error {
+	errReg.Store(e, id)
+	return e
+}
+func freshErrID() int {
+	errSeq.Lock()
+	defer errSeq.Unlock()
+	errSeq.n++
+	return 2000000 + errSeq.n
+}
+func errID(err error) (id int) {
+	defer func() {
+		if recover() != nil { // an error of a non-comparable dynamic type
+			id = 0
+		}
+	}()
+	if v, ok := errReg.Load(err); ok {
+		return v.(int)
 	}
 	return 0
+}
+
+// aggregate builds the value a node returns for the behaviour codes 70..73 (a bare *multierror.Error holding k errors) and
+// 80..83 (the same wrapped with fmt.Errorf("%w")); its components are registered under identities of their own
+func aggregate(obj, visit, code int) error {
+	k := code % 10
+	m := &multierror.Error{}
+	for i := 0; i < k; i++ {
+		m.Errors = append(m.Errors, regErr(&herr{id: obj*1000 + 500 + 10*visit + i}, freshErrID()))
+	}
+	if code >= 80 {
+		regErr(m, freshErrID())
+		return regErr(fmt.Errorf("node %d: %w", obj, m), freshErrID())
+	}
+	return regErr(m, freshErrID())
 }
 
 // waitUntil polls cond (evaluated under the lock) until it holds or the timeout expires
@@ -578,6 +653,7 @@ type Result struct {
 	Cancelled  bool       `json:"cancelled"`
 	LatencyUs  int64      `json:"latency_after_cancel_us,omitempty"`
 	Goroutines string     `json:"goroutines,omitempty"`
+	Leaked     string     `json:"goroutines_left_by_this_send,omitempty"`
 	Panic      string     `json:"panic,omitempty"`
 	HoldTO     int        `json:"hold_timeouts,omitempty"`
 	RecvTO     int        `json:"recv_timeouts,omitempty"`
@@ -614,9 +690,17 @@ func execCase(c Case) (res Result) {
 	}
 	sort.Slice(res.Snapshot, func(i, j int) bool { return res.Snapshot[i].Pid < res.Snapshot[j].Pid })
 
-	ctx, cancel := context.WithCancel(context.Background())
-	defer cancel()
+	var ctx context.Context
+	var cancel func()
+	if c.Sched.Ctx == 2 {
+		cc := newCallerCtx()
+		ctx, cancel = cc, cc.cancel
+	} else {
+		ctx, cancel = context.WithCancel(context.Background())
+	}
+	defer cancel() // the caller's context ends only after the goroutine-leak oracle below has looked
 	r.cancel = cancel
+	before := goroutineIDs()
 	payloadSeq++
 	payload := &struct{ n int }{payloadSeq}
 	r.payload = payload
@@ -683,6 +767,20 @@ func execCase(c Case) (res Result) {
 		}
 		time.Sleep(50 * time.Microsecond)
 	}
+	if res.Returned {
+		// goroutine-leak oracle: once Send has returned and every node invocation it started has returned, no goroutine
+		// created under this Send may remain — whatever the return path and whatever the type of the caller's context
+		// (which is still live here unless the script cancelled it). Bounded settle time; goroutines that existed before
+		// the call, and goroutines that neither run library / context code nor were created by it, are ignored.
+		settle := time.Now().Add(250 * time.Millisecond)
+		for {
+			res.Leaked = sendGoroutines(before)
+			if res.Leaked == "" || time.Now().After(settle) {
+				break
+			}
+			time.Sleep(200 * time.Microsecond)
+		}
+	}
 	r.mu.Lock()
 	r.done = true
 	res.Quiet = r.inProcess == 0
@@ -744,6 +842,54 @@ func graphGoroutines() string {
 	}
 	if len(out) > 6 {
 		out = append(out[:6], fmt.Sprintf("... %d more", len(out)-6))
+	}
+	return strings.Join(out, "\n\n")
+}
+// ids of all goroutines alive now
+func goroutineIDs() map[string]bool {
+	ids := map[string]bool{}
+	for _, g := range allStacks() {
+		ids[goroutineID(g)] = true
+	}
+	return ids
+}
+func allStacks() []string {
+	n := 1 << 16
+	for {
+		buf := make([]byte, n)
+		m := runtime.Stack(buf, true)
+		if m < n {
+			return strings.Split(string(buf[:m]), "\n\n")
+		}
+		n *= 4
+	}
+}
+func goroutineID(stack string) string {
+	f := strings.Fields(stack)
+	if len(f) >= 2 && f[0] == "goroutine" {
+		return f[1]
+	}
+	return ""
+}
+
+// goroutines that did not exist before the Send and that run, or were created by, code of the library or of the context
+// package (the cancellation propagation of a context derived from the caller's)
+func sendGoroutines(before map[string]bool) string {
+	var out []string
+	for _, g := range allStacks() {
+		if before[goroutineID(g)] {
+			continue
+		}
+		if strings.Contains(g, "hashicorp/eventlogger.") || strings.Contains(g, "\ncontext.") || strings.Contains(g, "created by context.") {
+			lines := strings.Split(g, "\n")
+			if len(lines) > 9 {
+				lines = lines[:9]
+			}
+			out = append(out, strings.Join(lines, "\n"))
+		}
+	}
+	if len(out) > 4 {
+		out = append(out[:4], fmt.Sprintf("... %d more", len(out)-4))
 	}
 	return strings.Join(out, "\n\n")
 }
@@ -816,9 +962,9 @@ func caseLit(c Case, res Result) string {
 		}
 		snapLit = "Some " + hc.List(snap)
 	}
-	return fmt.Sprintf("{| d_id := %s; d_hist := %s; d_ety := %s; d_snapshot := %s; d_pre := %s;\n   d_trace := %s;\n   d_quiet := %s; d_nodecalls := %s; d_noderets := %s; d_event0_ok := %s; d_status := (%s, %s, %s); d_err := %s; d_err_ctx := %s |}",
+	return fmt.Sprintf("{| d_id := %s; d_hist := %s; d_ety := %s; d_snapshot := %s; d_pre := %s;\n   d_trace := %s;\n   d_quiet := %s; d_leak := %s; d_nodecalls := %s; d_noderets := %s; d_event0_ok := %s; d_status := (%s, %s, %s); d_err := %s; d_err_ctx := %s |}",
 		hc.N(c.ID), hc.List(hist), hc.N(c.Ety), snapLit, hc.B(c.Sched.Pre), hc.List(trace),
-		hc.B(res.Quiet), hc.List(calls), hc.List(rets), hc.B(res.Event0OK), hc.NList(res.Complete), hc.NList(res.Sinks), hc.NList(res.Warnings),
+		hc.B(res.Quiet), hc.B(res.Leaked != ""), hc.List(calls), hc.List(rets), hc.B(res.Event0OK), hc.NList(res.Complete), hc.NList(res.Sinks), hc.NList(res.Warnings),
 		hc.B(res.Err), hc.B(res.ErrCtx))
 }
 
@@ -838,6 +984,9 @@ type emitter struct {
 func (e *emitter) run(c Case) Result {
 	e.nextID++
 	c.ID = e.nextID
+	if c.Sched.Ctx == 0 {
+		c.Sched.Ctx = 1 + e.nextID%2
+	}
 	if e.current != "" {
 		// a panic inside a goroutine of the library kills this process: leave the running case behind for the report
 		js, _ := json.Marshal(c)
@@ -863,6 +1012,10 @@ func (e *emitter) run(c Case) Result {
 	}
 	if len(c.Gate) > 0 {
 		e.stats["with_gated_nodes"]++
+	}
+	e.stats[fmt.Sprintf("caller_ctx:%s", []string{"?", "context.WithCancel", "custom-type"}[c.Sched.Ctx])]++
+	if res.Leaked != "" {
+		e.stats["goroutines_left_after_send"]++
 	}
 	if !res.HasGraph {
 		e.stats["no_graph"]++
@@ -1009,6 +1162,8 @@ func main() {
 		case "thresholds":
 			genThresholds(e, *thrN)
 			summary["thresholds_exhaustive_pipelines"] = *thrN
+		case "paths":
+			genPaths(e)
 		case "cancel":
 			n := genCancel(e, r.Fork(), *cancelRandom, *cancelReps)
 			summary["cancel_positions_forced"] = n
